@@ -228,8 +228,8 @@ def run(pid, tier, rng, pools, n=None):
         feats["more than 6 fraction digits"] += any(k[0] == "f" and len(k[2]) > 6 for k in ks)
         feats["weekday digit"] += any(k[0] == "w" for k in ks)
         feats["extra blanks"] += any(k[0] in "namfpw" and len(k) > 1 and k[1] not in ("0", "") for k in ks)
-    res.samples = stage1[:2] + ["skipped: %r; denoting a value: %d of %d; readings with feature: %r"
-                                % (skipped, denotes, len(stage2), feats)]
+    res.samples = ["readings: skipped %r; denoting a value: %d of %d; readings with feature: %r"
+                   % (skipped, denotes, len(stage2), feats)] + stage1[:2]
     for ext in (".req", ".spec", ".req2", ".crate"):
         try:
             os.remove(base + ext)
